@@ -434,3 +434,306 @@ end
 
 end PyTree
 end Pytask
+
+namespace Pytask
+namespace PyTree
+variable {α β γ δ : Type}
+
+/-! ### is_prefix and flatten_up_to -/
+
+mutual
+theorem flattenUpTo_isSome : ∀ (s : T α) (o : T β), (flattenUpTo s o).isSome = isPrefixNS s o
+  | .leaf a, o => by simp [flattenUpTo, isPrefixNS]
+  | .list ss, o => by
+    cases o <;> simp [flattenUpTo, isPrefixNS, flattenUpToL_isSome ss]
+  | .tuple ss, o => by
+    cases o <;> simp [flattenUpTo, isPrefixNS, flattenUpToL_isSome ss]
+  | .dict ss, o => by
+    cases o <;> simp [flattenUpTo, isPrefixNS, flattenUpToD_isSome ss]
+theorem flattenUpToL_isSome : ∀ (ss : List (T α)) (os : List (T β)), (flattenUpToL ss os).isSome = isPrefixL ss os
+  | [], os => by cases os <;> simp [flattenUpToL, isPrefixL]
+  | s :: ss, os => by
+    cases os with
+    | nil => simp [flattenUpToL, isPrefixL]
+    | cons o os =>
+      simp only [flattenUpToL, isPrefixL]
+      rw [← flattenUpTo_isSome s o, ← flattenUpToL_isSome ss os]
+      cases flattenUpTo s o <;> cases flattenUpToL ss os <;> simp
+theorem flattenUpToD_isSome : ∀ (ss : List (Key × T α)) (os : List (Key × T β)), (flattenUpToD ss os).isSome = isPrefixD ss os
+  | [], os => by cases os <;> simp [flattenUpToD, isPrefixD]
+  | (k, s) :: ss, os => by
+    cases os with
+    | nil => simp [flattenUpToD, isPrefixD]
+    | cons ko os =>
+      obtain ⟨k', o⟩ := ko
+      simp only [flattenUpToD, isPrefixD]
+      rw [← flattenUpTo_isSome s o, ← flattenUpToD_isSome ss os]
+      by_cases hk : k = k'
+      · cases flattenUpTo s o <;> cases flattenUpToD ss os <;> simp [hk]
+      · simp [hk]
+end
+
+mutual
+theorem flattenUpTo_map (f : α → γ) : ∀ (s : T α) (o : T β), flattenUpTo (map f s) o = flattenUpTo s o
+  | .leaf a, o => by simp [map, flattenUpTo]
+  | .list ss, o => by cases o <;> simp [map, flattenUpTo, flattenUpToL_map f ss]
+  | .tuple ss, o => by cases o <;> simp [map, flattenUpTo, flattenUpToL_map f ss]
+  | .dict ss, o => by cases o <;> simp [map, flattenUpTo, flattenUpToD_map f ss]
+theorem flattenUpToL_map (f : α → γ) : ∀ (ss : List (T α)) (os : List (T β)), flattenUpToL (mapL f ss) os = flattenUpToL ss os
+  | [], os => by cases os <;> simp [mapL, flattenUpToL]
+  | s :: ss, os => by
+    cases os with
+    | nil => simp [mapL, flattenUpToL]
+    | cons o os => simp [mapL, flattenUpToL, flattenUpTo_map f s o, flattenUpToL_map f ss os]
+theorem flattenUpToD_map (f : α → γ) : ∀ (ss : List (Key × T α)) (os : List (Key × T β)), flattenUpToD (mapD f ss) os = flattenUpToD ss os
+  | [], os => by cases os <;> simp [mapD, flattenUpToD]
+  | (k, s) :: ss, os => by
+    cases os with
+    | nil => simp [mapD, flattenUpToD]
+    | cons ko os =>
+      obtain ⟨k', o⟩ := ko
+      simp [mapD, flattenUpToD, flattenUpTo_map f s o, flattenUpToD_map f ss os]
+end
+
+mutual
+theorem isPrefixNS_map (f : α → γ) (g : β → δ) : ∀ (s : T α) (o : T β), isPrefixNS (map f s) (map g o) = isPrefixNS s o
+  | .leaf a, o => by simp [map, isPrefixNS]
+  | .list ss, o => by cases o <;> simp [map, isPrefixNS, isPrefixL_map f g ss]
+  | .tuple ss, o => by cases o <;> simp [map, isPrefixNS, isPrefixL_map f g ss]
+  | .dict ss, o => by cases o <;> simp [map, isPrefixNS, isPrefixD_map f g ss]
+theorem isPrefixL_map (f : α → γ) (g : β → δ) : ∀ (ss : List (T α)) (os : List (T β)), isPrefixL (mapL f ss) (mapL g os) = isPrefixL ss os
+  | [], os => by cases os <;> simp [mapL, isPrefixL]
+  | s :: ss, os => by
+    cases os with
+    | nil => simp [mapL, isPrefixL]
+    | cons o os => simp [mapL, isPrefixL, isPrefixNS_map f g s o, isPrefixL_map f g ss os]
+theorem isPrefixD_map (f : α → γ) (g : β → δ) : ∀ (ss : List (Key × T α)) (os : List (Key × T β)), isPrefixD (mapD f ss) (mapD g os) = isPrefixD ss os
+  | [], os => by cases os <;> simp [mapD, isPrefixD]
+  | (k, s) :: ss, os => by
+    cases os with
+    | nil => simp [mapD, isPrefixD]
+    | cons ko os =>
+      obtain ⟨k', o⟩ := ko
+      simp [mapD, isPrefixD, isPrefixNS_map f g s o, isPrefixD_map f g ss os]
+end
+
+/-- the pieces cut out by `flatten_up_to` partition the leaves of the value, in order. -/
+theorem flattenUpTo_leaves :
+    (∀ (s : T α) (o : T β) (vs : List (T β)), flattenUpTo s o = some vs → vs.flatMap leaves = leaves o) ∧
+    (∀ (ss : List (T α)) (os : List (T β)) (vs : List (T β)), flattenUpToL ss os = some vs → vs.flatMap leaves = leavesL os) ∧
+    (∀ (ss : List (Key × T α)) (os : List (Key × T β)) (vs : List (T β)), flattenUpToD ss os = some vs → vs.flatMap leaves = leavesD os) := by
+  apply T.ind3
+  · intro a o vs h
+    simp [flattenUpTo] at h; subst h; simp
+  · intro ss ih o vs h
+    cases o <;> simp [flattenUpTo] at h
+    simpa [leaves] using ih _ vs h
+  · intro ss ih o vs h
+    cases o <;> simp [flattenUpTo] at h
+    simpa [leaves] using ih _ vs h
+  · intro ss ih o vs h
+    cases o <;> simp [flattenUpTo] at h
+    simpa [leaves] using ih _ vs h
+  · intro os vs h
+    cases os <;> simp [flattenUpToL] at h
+    subst h; simp [leavesL]
+  · intro s ss ih1 ih2 os vs h
+    cases os with
+    | nil => simp [flattenUpToL] at h
+    | cons o os =>
+      simp only [flattenUpToL] at h
+      split at h
+      · simp at h
+      · rename_i v1 h1
+        split at h
+        · simp at h
+        · rename_i v2 h2
+          simp only [Option.some.injEq] at h; subst h
+          simp [leavesL, ih1 o v1 h1, ih2 os v2 h2]
+  · intro os vs h
+    cases os <;> simp [flattenUpToD] at h
+    subst h; simp [leavesD]
+  · intro k s ss ih1 ih2 os vs h
+    cases os with
+    | nil => simp [flattenUpToD] at h
+    | cons ko os =>
+      obtain ⟨k', o⟩ := ko
+      simp only [flattenUpToD] at h
+      split at h
+      · split at h
+        · simp at h
+        · rename_i v1 h1
+          split at h
+          · simp at h
+          · rename_i v2 h2
+            simp only [Option.some.injEq] at h; subst h
+            simp [leavesD, ih1 o v1 h1, ih2 os v2 h2]
+      · simp at h
+
+theorem flattenUpToD_keys : ∀ (ss : List (Key × T α)) (os : List (Key × T β)) (vs : List (T β)),
+    flattenUpToD ss os = some vs → os.map (·.1) = ss.map (·.1)
+  | [], os, vs, h => by cases os <;> simp [flattenUpToD] at h ⊢
+  | (k, s) :: ss, os, vs, h => by
+    cases os with
+    | nil => simp [flattenUpToD] at h
+    | cons ko os =>
+      obtain ⟨k', o⟩ := ko
+      simp only [flattenUpToD] at h
+      split at h
+      · rename_i hk
+        split at h
+        · simp at h
+        · split at h
+          · simp at h
+          · rename_i v2 h2
+            simp [hk, flattenUpToD_keys ss os v2 h2]
+      · simp at h
+
+/-- value `i` of `flatten_up_to` is the subtree of the returned value at the position of leaf `i`
+of the declaration. -/
+theorem flattenUpTo_at_aux :
+    (∀ (s : T α), WF s = true → ∀ (o : T β) (vs : List (T β)), flattenUpTo s o = some vs →
+        vs.length = (paths s).length ∧ ∀ p v, (p, v) ∈ (paths s).zip vs → at? o p = some v) ∧
+    (∀ (ss : List (T α)), WFL ss = true → ∀ (os : List (T β)) (vs : List (T β)), flattenUpToL ss os = some vs →
+        ∀ i, vs.length = (pathsL i ss).length ∧ ∀ p v, (p, v) ∈ (pathsL i ss).zip vs →
+          ∃ j p' c, p = .idx (i + j) :: p' ∧ os[j]? = some c ∧ at? c p' = some v) ∧
+    (∀ (ss : List (Key × T α)), WFD ss = true → (ss.map (·.1)).Nodup → ∀ (os : List (Key × T β)) (vs : List (T β)),
+        flattenUpToD ss os = some vs →
+        vs.length = (pathsD ss).length ∧ ∀ p v, (p, v) ∈ (pathsD ss).zip vs →
+          ∃ k p' c, p = .key k :: p' ∧ lookupD k os = some c ∧ at? c p' = some v) := by
+  apply T.ind3
+  · intro a _ o vs h
+    simp [flattenUpTo] at h; subst h
+    simp [paths, at_nil]
+  · intro ss ih hwf o vs h
+    simp only [WF] at hwf
+    cases o <;> simp [flattenUpTo] at h
+    rename_i os
+    obtain ⟨hl, hp⟩ := ih hwf os vs h 0
+    refine ⟨by simpa [paths] using hl, ?_⟩
+    intro p v hpv
+    obtain ⟨j, p', c, rfl, hc, hat⟩ := hp p v (by simpa [paths] using hpv)
+    simp only [Nat.zero_add]
+    rw [at_list os j p' c hc]; exact hat
+  · intro ss ih hwf o vs h
+    simp only [WF] at hwf
+    cases o <;> simp [flattenUpTo] at h
+    rename_i os
+    obtain ⟨hl, hp⟩ := ih hwf os vs h 0
+    refine ⟨by simpa [paths] using hl, ?_⟩
+    intro p v hpv
+    obtain ⟨j, p', c, rfl, hc, hat⟩ := hp p v (by simpa [paths] using hpv)
+    simp only [Nat.zero_add]
+    rw [at_tuple os j p' c hc]; exact hat
+  · intro ss ih hwf o vs h
+    simp only [WF, Bool.and_eq_true] at hwf
+    cases o <;> simp [flattenUpTo] at h
+    rename_i os
+    obtain ⟨hl, hp⟩ := ih hwf.2 (keysSorted_nodup _ hwf.1) os vs h
+    refine ⟨by simpa [paths] using hl, ?_⟩
+    intro p v hpv
+    obtain ⟨k, p', c, rfl, hc, hat⟩ := hp p v (by simpa [paths] using hpv)
+    rw [at_dict os k p' c hc]; exact hat
+  · intro _ os vs h i
+    cases os <;> simp [flattenUpToL] at h
+    subst h; simp [pathsL]
+  · intro s ss ih1 ih2 hwf os vs h i
+    simp only [WFL, Bool.and_eq_true] at hwf
+    cases os with
+    | nil => simp [flattenUpToL] at h
+    | cons o os =>
+      simp only [flattenUpToL] at h
+      split at h
+      · simp at h
+      · rename_i v1 h1
+        split at h
+        · simp at h
+        · rename_i v2 h2
+          simp only [Option.some.injEq] at h; subst h
+          obtain ⟨l1, q1⟩ := ih1 hwf.1 o v1 h1
+          obtain ⟨l2, q2⟩ := ih2 hwf.2 os v2 h2 (i + 1)
+          refine ⟨by simp [pathsL, l1, l2], ?_⟩
+          intro p v hpv
+          simp only [pathsL] at hpv
+          rw [mem_zip_append (by simp [l1])] at hpv
+          rcases hpv with hpv | hpv
+          · rw [mem_zip_map_left] at hpv
+            obtain ⟨p0, h0, hp⟩ := hpv
+            exact ⟨0, p0, o, by simpa using hp, by simp, q1 p0 v h0⟩
+          · obtain ⟨j, p', c, rfl, hc, hat⟩ := q2 p v hpv
+            exact ⟨j + 1, p', c, by simp [Nat.add_assoc, Nat.add_comm 1 j], by simpa using hc, hat⟩
+  · intro _ _ os vs h
+    cases os <;> simp [flattenUpToD] at h
+    subst h; simp [pathsD]
+  · intro k s ss ih1 ih2 hwf hnd os vs h
+    simp only [WFD, Bool.and_eq_true] at hwf
+    simp only [List.map_cons, List.nodup_cons] at hnd
+    cases os with
+    | nil => simp [flattenUpToD] at h
+    | cons ko os =>
+      obtain ⟨k', o⟩ := ko
+      simp only [flattenUpToD] at h
+      split at h
+      · rename_i hk
+        subst hk
+        split at h
+        · simp at h
+        · rename_i v1 h1
+          split at h
+          · simp at h
+          · rename_i v2 h2
+            simp only [Option.some.injEq] at h; subst h
+            obtain ⟨l1, q1⟩ := ih1 hwf.1 o v1 h1
+            obtain ⟨l2, q2⟩ := ih2 hwf.2 hnd.2 os v2 h2
+            have hkeys := flattenUpToD_keys ss os v2 h2
+            refine ⟨by simp [pathsD, l1, l2], ?_⟩
+            intro p v hpv
+            simp only [pathsD] at hpv
+            rw [mem_zip_append (by simp [l1])] at hpv
+            rcases hpv with hpv | hpv
+            · rw [mem_zip_map_left] at hpv
+              obtain ⟨p0, h0, hp⟩ := hpv
+              exact ⟨k, p0, o, by simpa using hp, by simp [lookupD], q1 p0 v h0⟩
+            · obtain ⟨k'', p', c, rfl, hc, hat⟩ := q2 p v hpv
+              refine ⟨k'', p', c, rfl, ?_, hat⟩
+              have hne : k ≠ k'' := by
+                intro heq; subst heq
+                have := lookupD_mem hc
+                rw [hkeys] at this
+                exact hnd.1 this
+              simp [lookupD, hne, hc]
+      · simp at h
+
+mutual
+theorem sameShape_isPrefixNS : ∀ (s : T α) (o : T β), sameShape s o = true → isPrefixNS s o = true
+  | .leaf a, o, _ => by simp [isPrefixNS]
+  | .list ss, o, h => by
+    cases o <;> simp [sameShape] at h
+    simp [isPrefixNS, sameShapeL_isPrefixL ss _ h]
+  | .tuple ss, o, h => by
+    cases o <;> simp [sameShape] at h
+    simp [isPrefixNS, sameShapeL_isPrefixL ss _ h]
+  | .dict ss, o, h => by
+    cases o <;> simp [sameShape] at h
+    simp [isPrefixNS, sameShapeD_isPrefixD ss _ h]
+theorem sameShapeL_isPrefixL : ∀ (ss : List (T α)) (os : List (T β)), sameShapeL ss os = true → isPrefixL ss os = true
+  | [], os, h => by cases os <;> simp [sameShapeL] at h ⊢; simp [isPrefixL]
+  | s :: ss, os, h => by
+    cases os with
+    | nil => simp [sameShapeL] at h
+    | cons o os =>
+      simp only [sameShapeL, Bool.and_eq_true] at h
+      simp [isPrefixL, sameShape_isPrefixNS s o h.1, sameShapeL_isPrefixL ss os h.2]
+theorem sameShapeD_isPrefixD : ∀ (ss : List (Key × T α)) (os : List (Key × T β)), sameShapeD ss os = true → isPrefixD ss os = true
+  | [], os, h => by cases os <;> simp [sameShapeD] at h ⊢; simp [isPrefixD]
+  | (k, s) :: ss, os, h => by
+    cases os with
+    | nil => simp [sameShapeD] at h
+    | cons ko os =>
+      obtain ⟨k', o⟩ := ko
+      simp only [sameShapeD, Bool.and_eq_true, decide_eq_true_eq] at h
+      simp [isPrefixD, h.1.1, sameShape_isPrefixNS s o h.1.2, sameShapeD_isPrefixD ss os h.2]
+end
+
+end PyTree
+end Pytask
